@@ -179,6 +179,10 @@ func scanMetricName(buf []byte, isEscaped bool) (endAt int, err error) {
 			return -1, ErrMissingMetricName
 		}
 	default:
+		// cpu value=1,load=2: no tags, the first comma belongs to the fields if an unescaped whitespace is before it
+		if whiteSpaceAt := walkToUnescapedChar(buf, ' ', 0, isEscaped); whiteSpaceAt > 0 && whiteSpaceAt < commaAt {
+			return whiteSpaceAt, nil
+		}
 		return commaAt, nil
 	}
 }
